@@ -138,7 +138,7 @@ func RunOnce(chk FullCheck, sc *Scenario, tag string, replay bool) (*Violation, 
 	if replay && sc.Sched != nil {
 		w.Replay = sc.Sched
 	}
-	v, err := chk.Execute(sc, w)
+	v, err := safeExecute(chk, sc, w)
 	st := w.Stats
 	if err != nil {
 		var we *WedgeError
@@ -554,4 +554,17 @@ func Replay(path string) int {
 	fmt.Printf("VIOLATION property=%s replay=%s\n", v.Prop, path)
 	fmt.Printf("  oracle=%s signature=%s same_signature_as_recorded=%v\n  %s\n", v.Oracle, v.Sig, same, indent(v.Detail, "  "))
 	return 1
+}
+
+// safeExecute turns a panic of the harness itself (e.g. a shrunk scenario that
+// lost its set-up steps) into an infrastructure error.
+func safeExecute(chk FullCheck, sc *Scenario, w *World) (v *Violation, err error) {
+	defer func() {
+		if r := recover(); r != nil {
+			buf := make([]byte, 8192)
+			n := runtime.Stack(buf, false)
+			v, err = nil, fmt.Errorf("%w: harness panic: %v\n%s", ErrInfra, r, buf[:n])
+		}
+	}()
+	return chk.Execute(sc, w)
 }
